@@ -1499,6 +1499,12 @@ class PyExec:
                     raise OutOfSubset("tuple unpack arity")
                 for t2, x in zip(tgt.elts, v.items):
                     self.assign(st, t2, x, node)
+            elif isinstance(v, PRef) and v.cls in ("list", "tuple") and not any(isinstance(t2, ast.Starred) for t2 in tgt.elts):
+                # a, b = <heap sequence>: ValueError unless it has exactly that many items
+                self.guard(st, "ValueError.unpack", st.heap.len(v.addr) == len(tgt.elts), node)
+                kind = self.opt.get("elem_kind", {}).get(v.cls, "any")
+                for i, t2 in enumerate(tgt.elts):
+                    self.assign(st, t2, self.cell_to_val(kind, st.heap.el(v.addr, i)), node)
             else:
                 raise OutOfSubset("unpack of %s" % v.kind)
         elif isinstance(tgt, ast.Subscript):
